@@ -171,19 +171,49 @@ def r18c(run):
               "context over through __context__", necessity="nested instances would be parsed in a fresh context")
 
 
-def _flag_env_eval(e, env: Dict[str, bool]) -> Optional[bool]:
+def _flag_env_eval(e, env: Dict[str, bool], resolve=None) -> Optional[bool]:
     if isinstance(e, ast.UnaryOp) and isinstance(e.op, ast.Not):
-        v = _flag_env_eval(e.operand, env)
+        v = _flag_env_eval(e.operand, env, resolve)
         return None if v is None else (not v)
     if isinstance(e, ast.BoolOp):
-        vals = [_flag_env_eval(v, env) for v in e.values]
+        vals = [_flag_env_eval(v, env, resolve) for v in e.values]
         if any(v is None for v in vals):
             return None
         return all(vals) if isinstance(e.op, ast.And) else any(vals)
     a = opt_attr(e)
     if a in env:
         return env[a]
+    if isinstance(e, ast.Name) and resolve is not None:
+        d = resolve(e.id)
+        if d is not None:
+            return _flag_env_eval(d, env, resolve)
     return None
+
+
+def flag_guards(fa, n, FLAGS):
+    """(guards, resolver): dominating branches that test the flags, directly or through a local boolean"""
+    def resolver_at(node):
+        def resolve(name):
+            if name not in fa.rd.locals:
+                return None
+            ds = [d for d in fa.rd.defs_of(node, name) if d is not fa.cfg.entry]
+            if len(ds) == 1 and ds[0].kind == "stmt" and isinstance(ds[0].ast, ast.Assign):
+                return ds[0].ast.value
+            return None
+        return resolve
+    guards = []
+    for b in fa.facts.branch_facts(n):
+        res = resolver_at(b.pred[0][0])
+        mentions = any(opt_attr(x) in FLAGS for x in ast.walk(b.test))
+        if not mentions:
+            for x in ast.walk(b.test):
+                if isinstance(x, ast.Name):
+                    d = res(x.id)
+                    if d is not None and any(opt_attr(y) in FLAGS for y in ast.walk(d)):
+                        mentions = True
+        if mentions:
+            guards.append((b, res))
+    return guards
 
 
 def union_stages(run):
@@ -221,7 +251,7 @@ def r18d(run):
     f, fa, stages = union_stages(run)
     run.floor("R18d", "staged retries (child contexts with explicit options) in the union branch", len(stages), 2)
     for n, var, fl, lowered, extra in stages:
-        guards = [b for b in fa.facts.branch_facts(n) if any(opt_attr(x) in FLAGS for x in ast.walk(b.test))]
+        guards = flag_guards(fa, n, FLAGS)
         ok = bool(guards)
         detail = []
         if ok:
@@ -229,8 +259,8 @@ def r18d(run):
                 env = dict(zip(FLAGS, vals))
                 if not all(env[x] for x in fl):
                     continue
-                for b in guards:
-                    v = _flag_env_eval(b.test, env)
+                for b, res in guards:
+                    v = _flag_env_eval(b.test, env, res)
                     if v is None:
                         raise AnalysisError(f"R18d: cannot evaluate stage guard `{unparse(b.test)}`")
                     if v == b.polarity:
